@@ -69,8 +69,71 @@ func Check(c *fw.Ctx, scope string, order int64, in []byte) bool {
 		c.Report(fw.Violation{Fingerprint: "dhcpv4.FromBytes|field|" + f, Order: order, Scope: scope, Input: fw.Hex(in),
 			Observed: d, Expected: "library field equals the wire bytes as read by the reference decoder",
 			Explain: "decoded field differs from the reference reading", GoTest: goTest(in)})
+		return true
+	}
+	// history: the program edits the packet it received, then decodes the same datagram again
+	// (a retransmission). What the second decode returns is a function of the bytes alone.
+	var lp2 *dhcpv4.DHCPv4
+	var lerr2 error
+	if pv, st := fw.Safe(func() { poisonV4(lp); lp2, lerr2 = dhcpv4.FromBytes(append([]byte(nil), in...)) }); pv != nil {
+		c.Report(fw.Violation{Fingerprint: "dhcpv4.FromBytes|panic-after-editing-an-earlier-result|" + fw.PanicSite(st), Order: order, Scope: scope, Input: fw.Hex(in),
+			Observed: fmt.Sprintf("panic: %v at %s", pv, st), Expected: "value or error", GoTest: goTest2(in)})
+		return true
+	}
+	if lerr2 != nil {
+		c.Report(fw.Violation{Fingerprint: "dhcpv4.FromBytes|second-decode-differs|verdict", Order: order, Scope: scope, Input: fw.Hex(in),
+			Observed: fmt.Sprintf("second decode of the same bytes: err=%v", lerr2), Expected: "accepted, as the first time", GoTest: goTest2(in)})
+	} else if f, d := adapt.DiffV4(lp2, rp); f != "" {
+		c.Report(fw.Violation{Fingerprint: "dhcpv4.FromBytes|second-decode-differs|" + f, Order: order, Scope: scope, Input: fw.Hex(in),
+			Observed: d, Expected: "decoding the same bytes again gives the reference reading again, whatever was done to the packet decoded first",
+			Explain: "packets decoded by separate calls share state: editing the first one changed what the second decode returns", GoTest: goTest2(in)})
 	}
 	return true
+}
+
+// poisonV4 edits a decoded packet in every way a caller may: fields overwritten in place, an option added, values scribbled over.
+func poisonV4(p *dhcpv4.DHCPv4) {
+	for _, s := range [][]byte{p.ClientIPAddr, p.YourIPAddr, p.ServerIPAddr, p.GatewayIPAddr, p.ClientHWAddr} {
+		for i := range s {
+			s[i] = 0xee
+		}
+	}
+	for _, v := range p.Options {
+		for i := range v {
+			v[i] = 0xee
+		}
+	}
+	p.UpdateOption(dhcpv4.OptGeneric(dhcpv4.GenericOptionCode(224), []byte("poison")))
+	p.UpdateOption(dhcpv4.OptMessageType(dhcpv4.MessageTypeDecline))
+	p.TransactionID[0] ^= 0xff
+	p.ServerHostName, p.BootFileName = "poison", "poison"
+}
+
+func goTest2(in []byte) string {
+	return fmt.Sprintf(`func TestReplay(t *testing.T) {
+	in, _ := hex.DecodeString(%q)
+	p1, err := dhcpv4.FromBytes(append([]byte(nil), in...))
+	if err != nil {
+		t.Fatal(err)
+	}
+	want := p1.Summary()
+	// the caller edits the packet it received ...
+	for _, v := range p1.Options {
+		for i := range v {
+			v[i] = 0xee
+		}
+	}
+	p1.UpdateOption(dhcpv4.OptGeneric(dhcpv4.GenericOptionCode(224), []byte("poison")))
+	p1.UpdateOption(dhcpv4.OptMessageType(dhcpv4.MessageTypeDecline))
+	// ... and the same datagram arrives again
+	p2, err := dhcpv4.FromBytes(append([]byte(nil), in...))
+	if err != nil {
+		t.Fatal(err)
+	}
+	if got := p2.Summary(); got != want {
+		t.Errorf("second decode differs:\n first  %%s\n second %%s", want, got)
+	}
+}`, fw.Hex(in))
 }
 
 func Run(c *fw.Ctx) {
